@@ -159,7 +159,7 @@ def _sym_cases(tier):
 # ---------------------------------------------------------------- numeric row-wise estimators (registry)
 
 NUMERIC = ["histogram", "kde", "distribution", "wasserstein", "wasserstein_lil", "sinkhorn", "approx_wasserstein", "info_weight",
-           "row_denoise", "count_feature_compression"]
+           "row_denoise", "count_feature_compression", "wasserstein_sinkhorn", "sinkhorn_empty"]
 
 
 def run_numeric(case):
